@@ -170,7 +170,10 @@ def materialise(tree, shape, R, contents=None, pd=None):
             dd = ddirs[(pd or {}).get((i, n), 1) - 1]
             p = d + "/" + dd + "/" + NAMES[n]
             data = (contents or {}).get((i, n))
-            s.append("file %s %s" % (hx(p), hx(data if data is not None else body(i, n, dshape))))
+            if tree.get("dnull") and n in tree["dnull"][i - 1]:
+                s.append("symlink %s %s" % (hx("/dev/null"), hx(p)))       # a drop-in switched off by a link to /dev/null
+            else:
+                s.append("file %s %s" % (hx(p), hx(data if data is not None else body(i, n, dshape))))
             paths[p] = (i, n)
     return s, paths
 
@@ -208,14 +211,17 @@ def f4_class(rec):
 
 
 def f4_expect(rec):
-    """expected map if (and only if) the first consulted drop-in stays unmasked: the reference result
-    plus that file's unique keys (its common key K is overridden by the later files anyway)."""
+    """expected map if (and only if) the first consulted drop-in stays unmasked: the reference result plus that file's
+    entries wherever no later file defines the key (it is the merge base: everything else overrides it)."""
     m = as_map(rec["exp"]["ents"])
     l, r = rec["log"][0]
+    if rec.get("dnull") and r in rec["dnull"][l - 1]:
+        return m          # the unmasked first drop-in is a link to /dev/null: nothing of it can show
     dshape = rec["shp"][1]
     for sec, on in (("", dshape in "bnh"), ("S", dshape in "bs")):
         if on:
-            m[(tuple(codes(sec)), tuple(codes("U%d%d" % (l, r))))] = (49,)
+            m.setdefault((tuple(codes(sec)), tuple(codes("U%d%d" % (l, r)))), (49,))
+            m.setdefault((tuple(codes(sec)), (75,)), tuple(codes("%d%d" % (l, r))))
     return m
 
 
@@ -229,7 +235,8 @@ def f4_tree(main, drop):
 
 
 def tree_text(t):
-    return "main=%s drop=%s shape=%s" % (t["main"], [[NAMES[n] for n in d] for d in t["drop"]], t["shp"])
+    nul = t.get("dnull") or [[] for _ in t["drop"]]
+    return "main=%s drop=%s shape=%s" % (t["main"], [[NAMES[n] + ("->/dev/null" if n in nul[i] else "") for n in d] for i, d in enumerate(t["drop"])], t["shp"])
 
 
 # --------------------------------------------------------------------------------------
@@ -240,7 +247,7 @@ def replay_trees(exe, recs, shape, verdict, pid, check_log=True, check_order=Fal
     metas = []
     for i, r in enumerate(recs):
         R = ROOT + "/t%d" % (i % 16)
-        t = {"main": r["main"], "drop": r["drop"], "shp": r["shp"]}
+        t = {"main": r["main"], "drop": r["drop"], "shp": r["shp"], "dnull": r.get("dnull")}
         pdmap = {(l, n): r["pd"][l - 1][n - 1] for l in range(1, len(r["drop"]) + 1) for n in r["drop"][l - 1]} if r.get("pd") else None
         if pdmap and len(shape.layout(R)[2]) < 2:
             pdmap = None
@@ -316,8 +323,8 @@ def nontrivial_tree(r):
     return nfiles >= 2
 
 
-def tree_export(nlay, nameset, maxdrops, shapes, invariants=("LayeredIsUapi", "HistoryFolds"), sample=1, seed=1, nd=1):
-    consts = {"ND": nd, "NLay": nlay, "NameSet": "{" + ",".join(str(n) for n in nameset) + "}", "MaxDrops": maxdrops,
+def tree_export(nlay, nameset, maxdrops, shapes, invariants=("LayeredIsUapi", "HistoryFolds"), sample=1, seed=1, nd=1, maxnull=0):
+    consts = {"ND": nd, "MaxNull": maxnull, "NLay": nlay, "NameSet": "{" + ",".join(str(n) for n in nameset) + "}", "MaxDrops": maxdrops,
               "Shapes": "{" + ",".join('"%s"' % s for s in shapes) + "}", "Export": "TRUE"}
     cfg = cfg_text(list(invariants), consts, constraint="ExportCase")
     cfg = cfg.replace("CONSTRAINT ExportCase", "CONSTRAINT Bound\nCONSTRAINT ExportCase")
@@ -359,6 +366,17 @@ def check_c01(exe, tier, seed, verdict):
     evals += len(recs2)
     states += r2.distinct
     nn += sum(1 for x in recs2 if len(x["log"]) >= 2)
+    # drop-ins switched off by a symbolic link to /dev/null (at most one per tree): the link masks the same-named files of the
+    # lower layers and contributes nothing
+    r5, recs5, total5 = tree_export(3, [3, 6], 6, ["bb"], maxnull=1)
+    if r5.violated:
+        verdict.violation("C01:model", {"tlc": r5.out[-3000:]}, "TLC: Read differs from UapiRef with /dev/null drop-ins\n" + r5.out[-1500:])
+    recs5 = [x for x in recs5 if any(x["dnull"])]
+    if tier == "quick" and len(recs5) > 2500:
+        recs5 = rnd.sample(recs5, 2500)
+    n += replay_trees(exe, recs5, Shape("std"), verdict, "C01")
+    evals += len(recs5)
+    states += r5.distinct
     # parameter shapes x covering trees
     cover = rnd.sample(recs, 300) + rnd.sample(recs2, 300)
     pshapes = ["dotsuffix", "noproject"]
@@ -670,7 +688,7 @@ def sorted_ents(ents):
 def check_c12(exe, tier, seed, verdict):
     rnd = random.Random(seed)
     names = [3, 4, 6]
-    r, recs, total = tree_export(2, names, 12, ["bb", "ns", "sn", "hs", "bh"] if tier == "thorough" else ["bb", "sn", "hs"])
+    r, recs, total = tree_export(2, names, 12, ["bb", "ns", "sn", "hs", "bh"] if tier == "thorough" else ["bb", "sn", "hs"], maxnull=1)
     if r.violated:
         verdict.violation("C12:model", {"tlc": r.out[-3000:]}, "TLC: HistoryFolds / LayeredIsUapi violated for 2 layers\n" + r.out[-1500:])
     if tier == "quick" and len(recs) > 1500:
@@ -680,7 +698,7 @@ def check_c12(exe, tier, seed, verdict):
     metas = []
     for i, x in enumerate(recs):
         R = ROOT + "/e%d" % (i % 16)
-        t = {"main": x["main"], "drop": x["drop"], "shp": x["shp"]}
+        t = {"main": x["main"], "drop": x["drop"], "shp": x["shp"], "dnull": x.get("dnull")}
         s, paths = materialise(t, Shape("readdirs", 2), R)
         sc = list(s)
         h = 1
@@ -696,6 +714,9 @@ def check_c12(exe, tier, seed, verdict):
         # suffix spellings / process-wide drop-in list on the same tree
         sc += ["setconfdirs %s" % hx(".conf.d"), "readdirs 70 %s %s %s %s x3d x23" % (hx(R + "/usr/etc"), hx(R + "/etc"), hx("cfg"), hx(".conf")),
                "dump 70", "free 70", "setconfdirs"]
+        # the two directories given as RELATIVE names (the process stands in the tree's root)
+        sc += ["chdir %s" % hx(R), "cbreset", "readdirs 80 %s %s %s %s x3d x23" % (hx("usr/etc"), hx("etc"), hx("cfg"), hx("conf")), "dump 80", "free 80",
+               "readdirscb 81 %s %s %s %s x3d x23" % (hx("usr/etc"), hx("etc"), hx("cfg"), hx("conf")), "dump 81", "free 81", "chdir %s" % hx("/")]
         cases.append((i, sc))
         metas.append((t, paths))
     res = core.run_cases(exe, cases)
@@ -715,7 +736,7 @@ def check_c12(exe, tier, seed, verdict):
         # split events per entry point
         reads = [(j, e) for j, e in enumerate(ev) if e["op"].startswith("read")]
         bad = False
-        for (j, rd), ent in zip(reads, entries + ["readdirs+set_conf_dirs"]):
+        for (j, rd), ent in zip(reads, entries + ["readdirs+set_conf_dirs", "readdirs(relative directories)", "readdirscb(relative directories)"]):
             nxt = [e for e in ev[j + 1:j + 10] if e["op"] == "dump"]
             if rd["rc"] != x["rc"]:
                 verdict.violation(fp + ":rc:" + ent, dict(case, entry=ent, got=rd["rc"]), "%s on %s: rc %s, expected %s" % (ent, tree_text(t), rd["rc"], x["rc"]))
@@ -758,8 +779,8 @@ def check_c12(exe, tier, seed, verdict):
     nns = check_nosuffix_fold(exe, recsns, verdict)
     ok += nns
     cov = {"states": r.distinct, "transitions": r.generated, "traces_validated_against_impl": ok,
-           "evaluations": len(recs) * 7, "distinct_nontrivial": nn,
-           "rule": "every 2-layer tree (main x4 per layer, every subset of 3 names per layer, content shapes) exported by TLC (%d trees, %d replayed): econf_readDirs, econf_readDirsWithCallback, econf_readConfig(+WithCallback) with PARSING_DIRS=<the same two directories>, econf_readDirsHistory(+WithCallback) and econf_readDirs under econf_set_conf_dirs are all run on the SAME tree and each compared with the specification's expectation (so with each other); history members: path -> file identity, own content, order; model invariant HistoryFolds: folding the history with masking gives the result. The same under a non-default process-wide drop-in directory list, and with the suffix NULL / empty (every directory entry counts; %d trees over the names .conf, a.conf, a.conf.bak, conf): all merged-result entry points agree, both history variants agree and the delivered history folded with masking (Trace_Layers!THistFold) gives the result. non-trivial = >= 2 files consulted and all seven calls compared." % (total, len(recs), nns),
+           "evaluations": len(recs) * 9, "distinct_nontrivial": nn,
+           "rule": "every 2-layer tree (main x4 per layer, every subset of 3 names per layer, content shapes) exported by TLC (%d trees, %d replayed): econf_readDirs, econf_readDirsWithCallback, econf_readConfig(+WithCallback) with PARSING_DIRS=<the same two directories>, econf_readDirsHistory(+WithCallback) econf_readDirs under econf_set_conf_dirs, and econf_readDirs(+WithCallback) with the directories as relative names are all run on the SAME tree and each compared with the specification's expectation (so with each other); history members: path -> file identity, own content, order; model invariant HistoryFolds: folding the history with masking gives the result. The same under a non-default process-wide drop-in directory list, and with the suffix NULL / empty (every directory entry counts; %d trees over the names .conf, a.conf, a.conf.bak, conf): all merged-result entry points agree, both history variants agree and the delivered history folded with masking (Trace_Layers!THistFold) gives the result. non-trivial = >= 2 files consulted and all seven calls compared." % (total, len(recs), nns),
            "samples": [{"tree": tree_text({"main": x["main"], "drop": x["drop"], "shp": x["shp"]}), "history": x["hist"]} for x in recs[100:101]],
            "exhaustive": tier == "thorough",
            "trusted_base": ["TLC 1.8.0", "gcc ASan/UBSan", "drv.c"]}
@@ -1154,9 +1175,11 @@ def Kfull(x):
     return x["log"]
 
 
-def scenario_events(x, ent, out, paths, K, rej=(), attrs=None, flags=None, malformed=(), reset_reread=False, heap=False, use_cb=True, dangling=()):
+def scenario_events(x, ent, out, paths, K, rej=(), attrs=None, flags=None, malformed=(), reset_reread=False, heap=False, use_cb=True, dangling=(), idx=None):
     root = out["root"]
     rp = {norm(k.replace(ROOT, root)): v for k, v in paths.items()}
+    if ent.endswith("_rel") and idx is not None:      # relative directory arguments: the callback sees the relative composition
+        rp.update({norm(k.replace(ROOT + "/s%d/" % (idx % 16), "")): v for k, v in paths.items()})
     t = {"main": with_dangling(x, dangling), "drop": x["drop"], "shp": x["shp"]}
     ev = out["ev"]
     heaps = [e["bytes"] for e in ev if e["op"] == "heap"]
@@ -1190,9 +1213,19 @@ def scenario_events(x, ent, out, paths, K, rej=(), attrs=None, flags=None, malfo
                 break
         if ent.startswith("readhist"):
             hist = []
+            hp = dict(rp)
+            if ent.endswith("_rel") and idx is not None:
+                # a relative name is made absolute with realpath(): a link reports its target (the scenario's targets/ files,
+                # /dev/null for the one main file that is consulted)
+                Rabs = norm(root + "/s%d" % (idx % 16))
+                for f in paths.values():
+                    hp[norm("%s/targets/t%d_%d" % (Rabs, f[0], f[1]))] = f
+                dn = [f for f in sorted(paths.values()) if f[1] == 0 and t["main"][f[0] - 1] == "devnull"]
+                if dn:
+                    hp["/dev/null"] = dn[-1]
             for d in nxt[:rd["n"]]:
                 st = d["st"]
-                hist.append({"f": list(rp.get(norm(st["path"]), (0, 0))) if st else [0, 0], "obs": {"groups": sections_of(d), "ents": listing_of_dump(d) or []}})
+                hist.append({"f": list(hp.get(norm(st["path"]), (0, 0))) if st else [0, 0], "obs": {"groups": sections_of(d), "ents": listing_of_dump(d) or []}})
             events.append({"e": "end", "rc": rd["rc"], "has_obj": bool(rd["arr"]), "kind": "hist", "hist": hist, "ents": [], "heap_ok": heap_ok, "cbused": use_cb})
         else:
             got = listing_of_dump(nxt[0]) if nxt and nxt[0]["st"] else None
